@@ -47,7 +47,8 @@ def gen_batch(rng, tier):
     L.append("DICT 3 " + gen_descriptor(rng, 778))
     L.append("DICT 4 bytes %d %d %d" % (rng.choice([0, 1, 7, 8, 9, 50, 3000, 70000]), rng.randint(1, 999), rng.choice([0, 1, 1])))
     L.append("DICT 5 " + gen_descriptor(rng, 779))
-    for s in range(6):
+    L.append("DICT 6 copy 1 %d" % rng.choice([5, 70000, 4000000000]))
+    for s in range(7):
         L.append("LOADERS %d" % s)
     levels = [-3, 1, 2, 3, 4, 5, 6, 9, 12, 13] + ([16, 19] if tier != "quick" else [16])
     for _ in range(40 if tier == "quick" else 120):
@@ -65,6 +66,10 @@ def gen_batch(rng, tier):
                  rng.choice(["text", "mix", "records", "rand", "longrep", "zero"]), n, rng.randint(1, 9999), rng.choice([1, 1, 0])))
     for a, b in [(1, 2), (2, 3), (2, 0), (1, 0), (3, 5), (0, 1)]:
         L.append("WRONG %d %d %d" % (a, b, rng.choice([1, 3, 5])))
+    for n, col in [(rng.choice([1, 2, 3, 5]), 1), (rng.choice([8, 15, 16, 17, 40]), rng.choice([0, 1])), (rng.choice([63, 64, 65, 200]), rng.choice([0, 1]))][:3 if tier != "quick" else 2]:
+        L.append("MULTI 1 %d %d" % (n, col))
+    # directed DictLife histories: a reset with parameters drops the multi-DDict set as well
+    L.append("HIST dmulti dref:1 dref:6 dreset dmulti dref:%d cload:%d comp:1 dec" % (rng.choice([1, 6]), rng.choice([1, 6])))
     # DictLife histories over slots {0 (raw), 1 (golden), 2/5 (generated)} — only accepted dictionaries are used (checked at replay)
     ops = ["cload", "cref", "cprefix", "creset", "comp", "dload", "dref", "dprefix", "dmulti", "dreset", "dec"]
     for _ in range(8 if tier == "quick" else 30):
@@ -74,7 +79,7 @@ def gen_batch(rng, tier):
         for _ in range(rng.randint(4, 14)):
             o = rng.choice(ops + ["comp", "dec", "dec"])
             if o in ("cload", "cref", "dload", "dref"):
-                h.append("%s:%d" % (o, rng.choice([0, 1, 1])))
+                h.append("%s:%d" % (o, rng.choice([0, 1, 1, 6])))
             elif o in ("cprefix", "dprefix"):
                 h.append("%s:0" % o)
             elif o == "comp":
